@@ -267,7 +267,13 @@ func (sk *SpaceKeeper) PlotWS(sid string) error {
 	// registered -> ready
 	// TODO: check for existence in plotterQueue
 	if ws, ok := sk.workSpaceIndex[engine.Registered].Get(sid); ok {
-		sk.newQueuedWorkSpaceCh <- newQueuedWorkSpace(ws, false)
+		// never block on the request channel while holding the state lock: the plotter needs that lock
+		// to get on and make room, so a full channel would wedge caller, plotter and Stop() for good
+		select {
+		case sk.newQueuedWorkSpaceCh <- newQueuedWorkSpace(ws, false):
+		default:
+			return ErrSpacePlotterIsBusy
+		}
 		return nil
 	}
 
@@ -306,7 +312,13 @@ func (sk *SpaceKeeper) MineWS(sid string) error {
 	// registered -> plotting -> mining
 	// TODO: check for existence in plotterQueue
 	if ws, ok := sk.workSpaceIndex[engine.Registered].Get(sid); ok {
-		sk.newQueuedWorkSpaceCh <- newQueuedWorkSpace(ws, true)
+		// never block on the request channel while holding the state lock: the plotter needs that lock
+		// to get on and make room, so a full channel would wedge caller, plotter and Stop() for good
+		select {
+		case sk.newQueuedWorkSpaceCh <- newQueuedWorkSpace(ws, true):
+		default:
+			return ErrSpacePlotterIsBusy
+		}
 		return nil
 	}
 
